@@ -136,6 +136,17 @@ def fam_pipeline_fail(seed, big):
                     sc["stream"] = True
                     out.append(sc)
                     i += 1
+    # a command already started is busy writing to the shared standard-error pipe of capture() / communicate() when a
+    # later one fails to start
+    for n in (2, 3):
+        for k in range(1, n):
+            for term in ("capture", "communicate"):
+                for stdin in ("inherit", "data"):
+                    sc = pl(i, n, "left", stdin, "pipe", "capture", term, 3, fail_at=k, detached=False, rng=rng)
+                    sc["noisy"] = True
+                    sc["tags"][0] = "we300000"   # (the reporting child's tag is its second argument)
+                    out.append(sc)
+                    i += 1
     return out
 
 
